@@ -734,6 +734,12 @@ class PyvalColorizer:
 
     def _colorize_ast_re(self, node:ast.Call, state: _ColorizerState) -> None:
         
+        if any(kw.arg is None for kw in node.keywords):
+            # Keywords passed using '**kwargs' can't be bound to the signature 
+            # and would be left out: show the call as it's written.
+            self._colorize_ast_call_generic(node, state)
+            return
+
         try:
             # Can raise TypeError
             args = bind_args(self.RE_COMPILE_SIGNATURE, node)
